@@ -47,9 +47,16 @@ func (s *sim) checkAll() {
 		}
 		p := propOfReason(bad.why)
 		msg := fmt.Sprintf("active chain contains block #%d (h=%d) which the ledger model labels %s", bad.idx, bad.height, bad.why)
-		c.Violate(p, "active-chain-valid", p+"/accepted-block/"+classOf(bad.why), "%s", msg)
+		sig := p + "/accepted-block/" + classOf(bad.why)
+		c.Violate(p, "active-chain-valid", sig, "%s", msg)
 		if p != "C12" {
 			c.Violate("C12", "active-chain-valid", "C12/active-chain-invalid/"+classOf(bad.why), "%s", msg)
+		}
+		if c.IsKnown(p, sig) && bad == tip {
+			// a listed known finding: the model adopts the node's verdict for this
+			// block so that the rest of the run keeps being checked
+			s.adopt(bad)
+			c.Probe("model-adopted-node-verdict-for-known-finding")
 		}
 		return
 	}
@@ -101,6 +108,7 @@ func (s *sim) checkAll() {
 
 	s.checkViews(tip)
 	s.checkPool(tip)
+	s.checkPoolBookkeeping()
 }
 
 // checkViews is the C14 oracle: every queryable UTXO view agrees with the
